@@ -1,10 +1,10 @@
 (* C09 — Subscription lifecycle: notified while registered, silent after, released once.
-   Statements only; proofs in WorldRegistry.v, WorldSids.v.
+   Statements only; proofs in WorldRegistry.v, WorldSids.v, WorldRelease.v.
    C09_partial: proved are the registry facts and the unsubscribe steps of the model; that no
    notification begins after unsubscribe() returned is FALSE of the code as it stands for the one
    notification whose snapshot was taken before (known finding F3, reproduced by the model); the
    lifecycle over whole histories is decided by engine L and the C09 monitor with that class. *)
-From RS Require Import Base Channel Pipeline Script World Hist WorldRegistry WorldSids.
+From RS Require Import Base Channel Pipeline Script World Hist WorldRegistry WorldSids WorldRelease.
 
 Section C09.
 Context {State : Type}.
@@ -50,9 +50,22 @@ Theorem C09_registry_unique : forall (cfg : wconfig (State := State)) reducers m
                                       end)) progs) ->
   reachable cfg reducers mws progs w -> NoDup (map se_id (w_subs w)).
 Proof. intros cfg reducers mws progs w L D R. exact (registry_unique cfg reducers mws progs w L D R). Qed.
+
+(* a direct subscriber gets on_unsubscribe exactly once (same programs, every schedule): the
+   releases it has received so far (in the unsubscribing caller's context or, at shutdown, in the
+   reducer's), plus 1 while its entry is still registered - or still waits for the shutdown release
+   in progress - equal the add_subscriber calls for it that have returned, of which there is at
+   most one. Hence never twice; and once it is neither registered nor waiting, exactly once. *)
+Theorem C09_released_exactly_once : forall (cfg : wconfig (State := State)) reducers mws progs w sid pc,
+  length progs <= 100 -> distinct_regs progs -> reachable cfg reducers mws progs w ->
+  get_thread (w_threads w) reducer_tid = Some (TReducer pc) ->
+  tot (c_rel sid) (w_hist w) + live sid (w_subs w) pc = tot (c_ret sid) (w_hist w) /\
+  tot (c_ret sid) (w_hist w) <= 1.
+Proof. intros cfg reducers mws progs w sid pc L D R G. exact (released_exactly_once cfg reducers mws progs w sid pc L D R G). Qed.
 End C09.
 
 Print Assumptions C09_registry.
 Print Assumptions C09_unsubscribe_again.
 Print Assumptions C09_unsubscribe_direct.
 Print Assumptions C09_registry_unique.
+Print Assumptions C09_released_exactly_once.
